@@ -188,6 +188,11 @@ func ClosedRangeEqual(vm *Thread, x *value.ClosedRange, y *value.ClosedRange) (b
 
 // Get the next element of the range
 func ClosedRangeIteratorNext(vm *Thread, i *value.ClosedRangeIterator) (value.Value, value.Value) {
+	// there was no element above the last one (see below)
+	if i.CurrentElement.IsUndefined() {
+		return value.Undefined, value.ToSymbol("stop_iteration").ToValue()
+	}
+
 	greater, err := GreaterThan(vm, i.CurrentElement, i.Range.End)
 	if !err.IsUndefined() {
 		return value.Undefined, err
@@ -203,6 +208,16 @@ func ClosedRangeIteratorNext(vm *Thread, i *value.ClosedRangeIterator) (value.Va
 	next, err := Increment(vm, i.CurrentElement)
 	if !err.IsUndefined() {
 		return value.Undefined, err
+	}
+
+	// the maximum of a fixed-width integer type wraps around when incremented,
+	// the result is below the end again and the iteration would start over
+	ascending, err := GreaterThan(vm, next, current)
+	if !err.IsUndefined() {
+		return value.Undefined, err
+	}
+	if !value.Truthy(ascending) {
+		next = value.Undefined
 	}
 	i.CurrentElement = next
 
